@@ -76,6 +76,7 @@ type caseRun struct {
 	hadChan   map[int]bool
 	frames    int  // message frames recorded in this case
 	flood     bool // the daemon keeps sending: the case is cut short and judged as it stands
+	quiet     bool // no settle/snapshot after each operation (mass set-up of a forced scenario)
 }
 
 func tname(t int) string {
@@ -261,6 +262,17 @@ func (cr *caseRun) settled(doc statsDoc) bool {
 }
 
 func fingerprint(doc statsDoc, cr *caseRun) string {
+	// the daemon lists a channel's consumers (and its topics and channels) in map order:
+	// canonicalise, or two identical states look different
+	sort.Slice(doc.Topics, func(i, j int) bool { return doc.Topics[i].TopicName < doc.Topics[j].TopicName })
+	for ti := range doc.Topics {
+		chs := doc.Topics[ti].Channels
+		sort.Slice(chs, func(i, j int) bool { return chs[i].ChannelName < chs[j].ChannelName })
+		for ci := range chs {
+			ks := chs[ci].Clients
+			sort.Slice(ks, func(i, j int) bool { return ks[i].ClientID < ks[j].ClientID })
+		}
+	}
 	bs, _ := json.Marshal(doc)
 	var sb strings.Builder
 	sb.Write(bs)
